@@ -76,13 +76,14 @@ type codecCtx struct {
 
 type fnCtx struct {
 	*codecCtx
-	info    *types.Info
-	flags   map[types.Object]int
-	ret     int
-	acceptR bool // top-level: returns are accepting (subject to error classification)
-	sig     *types.Signature
-	labels  map[string][2]int // label → (break target, continue target)
-	defByte map[ast.Stmt]bool // `v := buf.Byte()` statements whose token is emitted by the dispatching switch/if
+	info     *types.Info
+	flags    map[types.Object]int
+	ret      int
+	acceptR  bool // top-level: returns are accepting (subject to error classification)
+	sig      *types.Signature
+	labels   map[string][2]int     // label → (break target, continue target)
+	defByte  map[ast.Stmt]bool     // `v := buf.Byte()` statements whose token is emitted by the dispatching switch/if
+	errKnown map[types.Object]bool // error variables known non-nil in the arm being compiled
 }
 
 func isBufType(t types.Type, side string) bool {
@@ -443,7 +444,7 @@ func (f *fnCtx) call(call *ast.CallExpr, lits []*ast.FuncLit, in int) int {
 	// module function that touches a buffer: inline
 	if callee := calleeOf(f.info, call); callee != nil && f.pkgs[callee.Pkg()] {
 		fs := f.p.SrcOf(callee)
-		if fs != nil && f.hasBufOps(fs, map[*FuncSrc]bool{}, 0) {
+		if fs != nil && f.hasBufOps(fs, map[*FuncSrc]bool{}, 0) && f.sameStream(call, fs) {
 			if f.depth >= f.maxDep {
 				undecided("codec: inlining deeper than %d at %s", f.maxDep, f.p.Pos(call.Pos()))
 			}
@@ -455,6 +456,58 @@ func (f *fnCtx) call(call *ast.CallExpr, lits []*ast.FuncLit, in int) int {
 		}
 	}
 	return cur
+}
+
+// sameStream: does the callee continue the caller's byte stream?  Yes if it is handed the buffer,
+// or (encoder side) if it wraps a byte slice parameter in its own buffer (`Encbuf{B: b}`) and the
+// call passes a byte slice.  A callee that builds a fresh buffer (`Encbuf{}`), or decodes a
+// sub-slice (`Decode(dec.UvarintBytes())`), works on a nested stream, which appears in the outer
+// one as a single length-prefixed token.
+func (f *fnCtx) sameStream(call *ast.CallExpr, fs *FuncSrc) bool {
+	for _, a := range call.Args {
+		if isBufType(f.info.TypeOf(a), f.side) {
+			return true
+		}
+	}
+	if s, ok := ast.Unparen(call.Fun).(*ast.SelectorExpr); ok && isBufType(f.info.TypeOf(s.X), f.side) {
+		return true
+	}
+	if f.side != "enc" {
+		return false
+	}
+	wraps := false
+	info := fs.Pkg.TypesInfo
+	params := map[types.Object]bool{}
+	sig := fs.Obj.Type().(*types.Signature)
+	for i := 0; i < sig.Params().Len(); i++ {
+		params[sig.Params().At(i)] = true
+	}
+	ast.Inspect(fs.Decl.Body, func(n ast.Node) bool {
+		cl, ok := n.(*ast.CompositeLit)
+		if !ok || !isBufType(info.TypeOf(cl), "enc") {
+			return true
+		}
+		for _, el := range cl.Elts {
+			if kv, ok := el.(*ast.KeyValueExpr); ok {
+				if id, ok := ast.Unparen(kv.Value).(*ast.Ident); ok && params[info.ObjectOf(id)] {
+					wraps = true
+				}
+			}
+		}
+		return true
+	})
+	if wraps {
+		return true
+	}
+	// a dispatcher without its own buffer (Encoder.Samples → samplesV1/V2): look through
+	dispatch := true
+	ast.Inspect(fs.Decl.Body, func(n ast.Node) bool {
+		if cl, ok := n.(*ast.CompositeLit); ok && isBufType(info.TypeOf(cl), "enc") {
+			dispatch = false
+		}
+		return true
+	})
+	return dispatch
 }
 
 func (f *fnCtx) litHasOps(fl *ast.FuncLit) bool {
@@ -632,7 +685,7 @@ func (f *fnCtx) stmt(s ast.Stmt, in, brk, cont int) int {
 				return -1
 			}
 		}
-		if f.side == "dec" && f.sig != nil && f.lastResultIsErr() && len(x.Results) > 0 {
+		if f.sig != nil && f.lastResultIsErr() && len(x.Results) > 0 {
 			last := ast.Unparen(x.Results[len(x.Results)-1])
 			isNil := false
 			if id, ok := last.(*ast.Ident); ok && id.Name == "nil" {
@@ -643,6 +696,12 @@ func (f *fnCtx) stmt(s ast.Stmt, in, brk, cont int) int {
 			if isCall && !passThrough {
 				// `return nil, dec.Err()` is an error return; other calls (wrapping helpers) too
 				_ = call
+			}
+			if id, ok := last.(*ast.Ident); ok && !isNil {
+				// a returned error variable: rejected only where it is known non-nil (`if err != nil { return …, err }`)
+				if !f.errKnown[f.info.ObjectOf(id)] {
+					isNil = true
+				}
 			}
 			if !isNil && !passThrough {
 				return -1 // error return: the record is rejected, not an accepting end
@@ -750,7 +809,27 @@ func (f *fnCtx) stmt(s ast.Stmt, in, brk, cont int) int {
 			a.eps(cur, elseIn)
 		}
 		done := a.node()
-		if out := f.block(x.Body.List, thenIn, brk, cont); out >= 0 {
+		var known types.Object
+		if be, ok := ast.Unparen(x.Cond).(*ast.BinaryExpr); ok && be.Op == token.NEQ {
+			if y, ok := ast.Unparen(be.Y).(*ast.Ident); ok && y.Name == "nil" {
+				if id, ok := ast.Unparen(be.X).(*ast.Ident); ok {
+					if o := f.info.ObjectOf(id); o != nil && isErrorType(o.Type()) {
+						known = o
+					}
+				}
+			}
+		}
+		if known != nil {
+			if f.errKnown == nil {
+				f.errKnown = map[types.Object]bool{}
+			}
+			f.errKnown[known] = true
+		}
+		out := f.block(x.Body.List, thenIn, brk, cont)
+		if known != nil {
+			delete(f.errKnown, known)
+		}
+		if out >= 0 {
 			a.eps(out, done)
 		}
 		if x.Else != nil {
